@@ -65,10 +65,8 @@ def cmd_confirm(name):
     shutil.copy(os.path.join(d, 'demo.py'), os.path.join(wt, 'demo.py'))
     # demo.py files refer to their own worktree path: make them relocatable
     src = open(os.path.join(wt, 'demo.py')).read()
-    for old in ('/tmp/sa/' + x for x in os.listdir('/tmp/sa')
-                if os.path.isdir('/tmp/sa/' + x)) \
-            if os.path.isdir('/tmp/sa') else []:
-      src = src.replace(old, wt)
+    import re
+    src = re.sub(r'/tmp/s[a-z]/C\d\d', wt, src)
     open(os.path.join(wt, 'demo.py'), 'w').write(src)
     r0 = sh([PY, 'demo.py'], cwd=wt, env=env, timeout=1800)
     a = sh(['git', '-C', wt, 'apply', os.path.join(d, 'patch.diff')])
@@ -168,10 +166,11 @@ def cmd_table():
                                        ('caught by ' + ', '.join(v['monitors'][:3]))
                                        if v['exit'] == 1 else 'exit %s' % v['exit'])
                        for p, v in run['results'].items())
-    rows.append('| `%s` | %s | %s | %s | %s |' % (
+    rows.append('| `%s` | %s | %s | %s | %s | %s |' % (
         name, ','.join(m['property']),
         'yes' if conf.get('ok') else ('pending' if not conf else 'NO'),
-        fmt(first), fmt(last) if last is not first else 'same'))
+        fmt(first), fmt(last) if last is not first else 'same',
+        m.get('note', '')))
   out = ['# Independently seeded changes', '',
          'Each directory holds `patch.diff` (apply with `git -C /repo apply`), '
          '`demo.py` (fails with the patch, passes without), the author\'s '
@@ -180,8 +179,8 @@ def cmd_table():
          'Authors were sub-agents that saw only the property text and a '
          'scratch worktree.', '',
          '| change | property | confirmed (demo both ways, 875 baseline tests '
-         'pass) | first evaluation | latest evaluation |',
-         '|---|---|---|---|---|'] + rows
+         'pass) | first evaluation | latest evaluation | strengthening |',
+         '|---|---|---|---|---|---|'] + rows
   with open(os.path.join(base, 'README.md'), 'w') as f:
     f.write('\n'.join(out) + '\n')
   print('\n'.join(out))
